@@ -3,5 +3,5 @@
 id=$1; a=$2; b=$3; tier=${4:-quick}
 for s in $(seq $a $b); do
   out=$(VERIF_SEED=$s ./check $id --tier $tier 2>/dev/null); rc=$?
-  echo "seed=$s rc=$rc $(echo "$out" | grep -c '^VIOLATION') violations; $(echo "$out" | grep '^VIOLATION' | head -2 | cut -c1-220)"
+  echo "seed=$s rc=$rc $(echo "$out" | grep -a -c '^VIOLATION') violations; $(echo "$out" | grep -a '^VIOLATION' | head -2 | cut -c1-220)"
 done
